@@ -455,6 +455,19 @@ def eval_bool(b: BoolSym, env) -> bool:
     return any(eval_bool(BoolSym(x), env) for x in k[1])
 
 
+def _ATOM_LOOKUP(kind, key):
+    from .sym import _ATOM_INDEX
+    if kind == "var":
+        for sort_key in ((kind, (key,)),):
+            a = _ATOM_INDEX.get(sort_key)
+            if a is not None:
+                return a.id
+        return None
+    name, idx = key
+    a = _ATOM_INDEX.get(("cell", (name, tuple(Sym.const(i).key() for i in idx))))
+    return a.id if a is not None else None
+
+
 def poly_witness(goal: BoolSym, assumptions, tries=40, seed=0):
     """For goal `residual == 0` with a non-zero residual over independent atoms: an exact rational
     assignment satisfying the assumptions under which the residual is non-zero, or None."""
@@ -473,6 +486,27 @@ def poly_witness(goal: BoolSym, assumptions, tries=40, seed=0):
         if all(ATOMS[a].kind == "var" and ATOMS[a].sort == "int" for a in all_atoms([f])):
             s.add(bool_z3(f))
     rng = random.Random(seed)
+    # real symbols constrained by the assumptions (e.g. c^2 + s^2 == 1, 0 <= ratio <= 1) take their values from a
+    # solver model of the assumptions; everything else is sampled
+    pinned = {}
+    real_constrained = set()
+    for f in assumptions:
+        ids = all_atoms([f])
+        if any(ATOMS[a].sort == "real" for a in ids):
+            real_constrained |= {a for a in ids if ATOMS[a].kind in ("var", "cell")}
+    if real_constrained:
+        s2 = z3.Solver()
+        s2.set("timeout", 3000)
+        for f in assumptions:
+            s2.add(bool_z3(f))
+        if s2.check() == z3.sat:
+            mdl = s2.model()
+            for a in real_constrained:
+                v = mdl.eval(atom_z3(ATOMS[a]), model_completion=True)
+                if z3.is_rational_value(v):
+                    pinned[a] = Fraction(v.numerator_as_long(), v.denominator_as_long())
+                elif z3.is_int_value(v):
+                    pinned[a] = Fraction(v.as_long())
     for bound in (6, 12, 40, None):
         s.push()
         if bound is not None:
@@ -491,6 +525,10 @@ def poly_witness(goal: BoolSym, assumptions, tries=40, seed=0):
                 if kind == "var" and sort == "int":
                     return Fraction(ints[key])
                 k = (kind, key)
+                if k not in vals and pinned:
+                    pa = _ATOM_LOOKUP(kind, key)
+                    if pa is not None and pa in pinned:
+                        vals[k] = pinned[pa]
                 if k not in vals:
                     vals[k] = Fraction(rng.randint(-6, 6), rng.choice((1, 1, 2, 3))) if rng.random() < 0.8 else Fraction(rng.randint(1, 9))
                 return vals[k]
